@@ -1242,4 +1242,194 @@ theorem gauge_points_nodup (c : Cfg) (h : List LOp) (hinc : Increasing h) (r ts 
       obtain ⟨start, hb⟩ := lbuild_multi_some _ _ _ _ _ _ lst hf hu
       rw [hb]; exact LNoDup_lmergedFor _ _ _ _
 
+/-! ### synchronous gauges (ABI v2): always reported cumulatively -/
+
+/-- the configuration in which every reader is treated as cumulative (`MetricCollector::GetAggregationTemporality`
+    answers cumulative for a synchronous gauge whatever the reader asks for) -/
+def allCumulative (c : Cfg) : Cfg := ⟨c.temps.map fun _ => .cumulative⟩
+
+theorem allCumulative_n (c : Cfg) : (allCumulative c).n = c.n := by simp [allCumulative, Cfg.n]
+
+theorem allCumulative_temp (c : Cfg) (r : Nat) : (allCumulative c).temp r = .cumulative := by
+  simp only [allCumulative, Cfg.temp, List.getD_eq_getElem?_getD, List.getElem?_map]
+  cases c.temps[r]? <;> rfl
+
+def sgOfL (s : LStorage) : SGaugeStorage := ⟨s.cur, s.temporal⟩
+
+/-- run of the synchronous gauge storage of the model over a history -/
+def sgrunRev (c : Cfg) : List LOp → SGaugeStorage
+  | [] => SGaugeStorage.init
+  | .record a x :: o => sgrecord (sgrunRev c o) a x
+  | .collect r ts :: o => (sgcollect c (sgrunRev c o) r ts).1
+
+theorem sgcollect_eq (c : Cfg) (s : LStorage) (r ts : Nat) :
+    sgcollect c (sgOfL s) r ts = (sgOfL (lcollect (allCumulative c) s r ts).1, (lcollect (allCumulative c) s r ts).2) := by
+  simp only [sgcollect, lcollect, allCumulative_n, allCumulative_temp, sgOfL]
+  split <;> rfl
+
+theorem sgrun_eq (c : Cfg) : ∀ h : List LOp, sgrunRev c h = sgOfL (lrunRev (allCumulative c) h)
+  | [] => rfl
+  | .record a x :: o => by simp only [sgrunRev, sgrun_eq c o, lrunRev, lstep]; rfl
+  | .collect r ts :: o => by simp only [sgrunRev, sgrun_eq c o, lrunRev, lstep, sgcollect_eq]
+
+/-- **gauge_reports_latest_sync**: for every history of `Record` calls and collections by any readers (delta or
+    cumulative), with increasing sample times, a synchronous gauge reports, per attribute set, the most recently
+    recorded value — and a point for exactly the sets ever recorded. -/
+theorem gauge_reports_latest_sync (c : Cfg) (h : List LOp) (hinc : Increasing h) (r ts : Nat) (hr : r < c.n) (x : Nat) :
+    (lpoints (sgcollect c (sgrunRev c h) r ts).2).lookup x = latestRec h x := by
+  rw [sgrun_eq, sgcollect_eq]
+  have := gauge_reports_latest (allCumulative c) h hinc r ts (by rw [allCumulative_n]; exact hr) x
+  rw [allCumulative_temp] at this
+  exact this
+
+/-! ### observable gauges: `AsyncMetricStorage` with last-value aggregations -/
+
+/-- one collection cycle as the observable gauge's storage sees it: the observations (already stamped with their
+    sample times) recorded by the callbacks, then the collection -/
+structure GCycle where
+  obs : List (Nat × Sample)
+  r : Nat
+  ts : Nat
+
+def gcycle (c : Cfg) (s : GaugeStorage) (cy : GCycle) : GaugeStorage × Option LData :=
+  gcollect c (cy.obs.foldl (fun s kv => grecordOne s kv.1 kv.2) s) cy.r cy.ts
+
+def grunRev (c : Cfg) : List GCycle → GaugeStorage
+  | [] => GaugeStorage.init
+  | cy :: o => (gcycle c (grunRev c o) cy).1
+
+/-- the cycle's observations as record operations, most recent first -/
+def gRecs (cy : GCycle) : List LOp := (cy.obs.map fun kv => LOp.record kv.1 kv.2).reverse
+
+/-- the history of records and collections a history of cycles amounts to -/
+def translateG : List GCycle → List LOp
+  | [] => []
+  | cy :: o => .collect cy.r cy.ts :: (gRecs cy ++ translateG o)
+
+theorem lrunRev_records (c : Cfg) : ∀ (obs : List (Nat × Sample)) (rest : List LOp),
+    lrunRev c ((obs.map fun kv => LOp.record kv.1 kv.2).reverse ++ rest) =
+      { lrunRev c rest with cur := obs.foldl (fun m kv => lset m kv.1 kv.2) (lrunRev c rest).cur }
+  | [], rest => by simp
+  | kv :: t, rest => by
+    have ih := lrunRev_records c t (LOp.record kv.1 kv.2 :: rest)
+    simp only [List.map_cons, List.reverse_cons, List.append_assoc, List.singleton_append, List.foldl_cons]
+    rw [ih]; rfl
+
+theorem increasing_records : ∀ (obs : List (Nat × Sample)) (rest : List LOp),
+    Increasing ((obs.map fun kv => LOp.record kv.1 kv.2).reverse ++ rest) → Increasing rest
+  | [], _, h => by simpa using h
+  | kv :: t, rest, h => by
+    simp only [List.map_cons, List.reverse_cons, List.append_assoc, List.singleton_append] at h
+    exact (increasing_records t _ h).2
+
+/-- the record loop of the observable gauge: with sample times above everything stored, the delta map is updated
+    exactly like a synchronous gauge's current map (`prev->Diff(new)` is `new`) — no hypothesis about repeated
+    attribute sets is needed: the later observation simply wins -/
+theorem grecord_fold : ∀ (obs : List (Nat × Sample)) (s : GaugeStorage) (rest : List LOp),
+    (∀ x p, s.cumulative.lookup x = some p → p.ts ≤ maxTs rest) →
+    Increasing ((obs.map fun kv => LOp.record kv.1 kv.2).reverse ++ rest) →
+    (obs.foldl (fun s kv => grecordOne s kv.1 kv.2) s).delta = obs.foldl (fun m kv => lset m kv.1 kv.2) s.delta ∧
+    (obs.foldl (fun s kv => grecordOne s kv.1 kv.2) s).temporal = s.temporal ∧
+    (∀ x p, (obs.foldl (fun s kv => grecordOne s kv.1 kv.2) s).cumulative.lookup x = some p →
+        p.ts ≤ maxTs ((obs.map fun kv => LOp.record kv.1 kv.2).reverse ++ rest))
+  | [], s, rest, hb, _ => ⟨rfl, rfl, by simpa using hb⟩
+  | kv :: t, s, rest, hb, hinc => by
+    simp only [List.map_cons, List.reverse_cons, List.append_assoc, List.singleton_append] at hinc ⊢
+    have hinc1 : Increasing (LOp.record kv.1 kv.2 :: rest) := increasing_records t _ hinc
+    have hone : (grecordOne s kv.1 kv.2).delta = lset s.delta kv.1 kv.2 ∧
+        (grecordOne s kv.1 kv.2).temporal = s.temporal ∧
+        (grecordOne s kv.1 kv.2).cumulative = lset s.cumulative kv.1 kv.2 := by
+      unfold grecordOne
+      cases hl : s.cumulative.lookup kv.1 with
+      | none => exact ⟨rfl, rfl, rfl⟩
+      | some p =>
+        have := hb kv.1 p hl
+        have hlt : ¬ p.ts > kv.2.ts := by have := hinc1.1; omega
+        simp [later, hlt]
+    have hb' : ∀ x p, (grecordOne s kv.1 kv.2).cumulative.lookup x = some p → p.ts ≤ maxTs (LOp.record kv.1 kv.2 :: rest) := by
+      intro x p hp
+      rw [hone.2.2, lookup_lset] at hp
+      simp only [maxTs]
+      split at hp
+      · simp only [Option.some.injEq] at hp; subst hp; exact Nat.le_max_left ..
+      · exact Nat.le_trans (hb x p hp) (Nat.le_max_right ..)
+    obtain ⟨i1, i2, i3⟩ := grecord_fold t (grecordOne s kv.1 kv.2) (LOp.record kv.1 kv.2 :: rest) hb' hinc
+    simp only [List.foldl_cons]
+    exact ⟨by rw [i1, hone.1], by rw [i2, hone.2.1], i3⟩
+
+/-- the observable gauge's storage and the last-value storage it is compared with -/
+structure GSim (h : List GCycle) (s : GaugeStorage) (t : LStorage) : Prop where
+  delta : s.delta = []
+  cur : t.cur = []
+  temporal : s.temporal = t.temporal
+  bound : ∀ x p, s.cumulative.lookup x = some p → p.ts ≤ maxTs (translateG h)
+
+theorem gauge_cycle_step (c : Cfg) (o : List GCycle) (cy : GCycle) (hv : cy.r < c.n)
+    (hinc : Increasing (translateG (cy :: o))) (s : GaugeStorage) (t : LStorage) (ht : t = lrunRev c (translateG o))
+    (sim : GSim o s t) :
+    (gcycle c s cy).2 = (lcollect c (lrunRev c (gRecs cy ++ translateG o)) cy.r cy.ts).2 ∧
+    GSim (cy :: o) (gcycle c s cy).1 (lrunRev c (translateG (cy :: o))) := by
+  have hinc' : Increasing (gRecs cy ++ translateG o) := hinc
+  obtain ⟨g1, g2, g3⟩ := grecord_fold cy.obs s (translateG o) sim.bound hinc'
+  have hl := lrunRev_records c cy.obs (translateG o)
+  rw [← ht, sim.cur] at hl
+  rw [sim.delta] at g1
+  have hrun : lrunRev c (translateG (cy :: o)) = (lcollect c (lrunRev c (gRecs cy ++ translateG o)) cy.r cy.ts).1 := rfl
+  have hg : gcycle c s cy =
+      ({ (cy.obs.foldl (fun s kv => grecordOne s kv.1 kv.2) s) with delta := [], temporal :=
+          (lbuild c.n (c.temp cy.r) t.temporal cy.r cy.ts (cy.obs.foldl (fun m kv => lset m kv.1 kv.2) [])).1 },
+       (lbuild c.n (c.temp cy.r) t.temporal cy.r cy.ts (cy.obs.foldl (fun m kv => lset m kv.1 kv.2) [])).2) := by
+    simp only [gcycle, gcollect, hv, if_true, g1, g2, sim.temporal]
+  have hlc := lcollect_eq c (lrunRev c (gRecs cy ++ translateG o)) cy.r cy.ts hv
+  have hl' : lrunRev c (gRecs cy ++ translateG o) = { t with cur := cy.obs.foldl (fun m kv => lset m kv.1 kv.2) [] } := hl
+  rw [hrun, hg, hlc, hl']
+  refine ⟨rfl, ⟨rfl, rfl, rfl, ?_⟩⟩
+  intro x p hp
+  simp only [translateG, maxTs]
+  exact g3 x p hp
+
+/-- **gauge_reports_latest_observable_cycle**: for every history of collection cycles by any readers, with
+    increasing sample times, an observable gauge reports to a cumulative reader, per attribute set, the most
+    recently observed value, and to a delta reader the most recently observed value of its own interval. -/
+theorem gauge_reports_latest_observable_cycle (c : Cfg) : ∀ (o : List GCycle) (cy : GCycle),
+    (∀ y ∈ cy :: o, y.r < c.n) → Increasing (translateG (cy :: o)) → ∀ x,
+    (lpoints (gcycle c (grunRev c o) cy).2).lookup x =
+      match c.temp cy.r with
+      | .cumulative => latestRec (gRecs cy ++ translateG o) x
+      | .delta => latestSince cy.r (gRecs cy ++ translateG o) x := by
+  have hsim : ∀ (o : List GCycle), (∀ y ∈ o, y.r < c.n) → Increasing (translateG o) →
+      GSim o (grunRev c o) (lrunRev c (translateG o)) := by
+    intro o
+    induction o with
+    | nil => intro _ _; exact ⟨rfl, rfl, rfl, by simp [grunRev, GaugeStorage.init, List.lookup]⟩
+    | cons cy o ih =>
+      intro hv hinc
+      have hinc_o : Increasing (translateG o) := increasing_records cy.obs _ (show Increasing (gRecs cy ++ translateG o) from hinc)
+      exact (gauge_cycle_step c o cy (hv cy (List.mem_cons_self ..)) hinc _ _ rfl
+        (ih (fun y hy => hv y (List.mem_cons_of_mem _ hy)) hinc_o)).2
+  intro o cy hv hinc x
+  have hinc' : Increasing (gRecs cy ++ translateG o) := hinc
+  have hinc_o : Increasing (translateG o) := increasing_records cy.obs _ hinc'
+  have hr := hv cy (List.mem_cons_self ..)
+  rw [(gauge_cycle_step c o cy hr hinc _ _ rfl (hsim o (fun y hy => hv y (List.mem_cons_of_mem _ hy)) hinc_o)).1]
+  exact gauge_reports_latest c _ hinc' cy.r cy.ts hr x
+
+/-- in particular: an attribute set observed in this cycle is reported with the value just observed (the last
+    observation of the cycle for that set), to delta and cumulative readers alike -/
+theorem gauge_reports_this_cycle (c : Cfg) (o : List GCycle) (cy : GCycle) (pre : List (Nat × Sample)) (x : Nat)
+    (s : Sample) (hobs : cy.obs = pre ++ [(x, s)]) (hv : ∀ y ∈ cy :: o, y.r < c.n)
+    (hinc : Increasing (translateG (cy :: o))) :
+    (lpoints (gcycle c (grunRev c o) cy).2).lookup x = some s := by
+  rw [gauge_reports_latest_observable_cycle c o cy hv hinc x]
+  have : gRecs cy = LOp.record x s :: (pre.map fun kv => LOp.record kv.1 kv.2).reverse := by
+    simp [gRecs, hobs]
+  rw [this]
+  cases c.temp cy.r <;> simp [latestRec, latestSince]
+
+/-- the clock hypothesis is satisfiable, and the spec picks the later sample -/
+example : Increasing [.record 1 ⟨7, 3⟩, .collect 0 1, .record 1 ⟨5, 2⟩, .record 2 ⟨9, 1⟩] ∧
+    latestRec [.record 1 ⟨7, 3⟩, .collect 0 1, .record 1 ⟨5, 2⟩, .record 2 ⟨9, 1⟩] 1 = some ⟨7, 3⟩ := by
+  refine ⟨?_, by decide⟩
+  simp [Increasing, maxTs]
+
 end Otel.C17
